@@ -219,10 +219,14 @@ impl<Octs: AsRef<[u8]> + ?Sized> Txt<Octs> {
 
     /// Returns the content if it consists of a single character string.
     pub fn as_flat_slice(&self) -> Option<&[u8]> {
-        if usize::from(self.0.as_ref()[0]) == self.0.as_ref().len() - 1 {
-            Some(&self.0.as_ref()[1..])
-        } else {
-            None
+        // Parsed data may be empty (e.g., `TXT \# 0`), so don’t assume
+        // there is a first octet.
+        let slice = self.0.as_ref();
+        match slice.first() {
+            Some(&len) if usize::from(len) == slice.len() - 1 => {
+                Some(&slice[1..])
+            }
+            _ => None,
         }
     }
 
